@@ -78,6 +78,8 @@ package syntax
 //@   nopanic
 //@   ensures [C17] sound: result ==> seg.Type == s2.Type && seg.rule == s2.rule && seg.Suffix == s2.Suffix && seg.Endpoint == s2.Endpoint &&
 //@        (seg.Name != s2.Name || seg.ignoreName != s2.ignoreName)
+//@   ensures [C17] complete: seg.Type == s2.Type && seg.rule == s2.rule && seg.Suffix == s2.Suffix && seg.Endpoint == s2.Endpoint &&
+//@        (seg.ignoreName != s2.ignoreName || (seg.Name != s2.Name && seg.ambiguousLength == s2.ambiguousLength)) ==> result
 //
 //@ fn Segment.Similarity
 //@   requires seg != nil && s1 != nil
@@ -151,9 +153,13 @@ package syntax
 //@   requires icOK(i)
 //@   ensures [C05] ok: result1 == nil ==> len(result0) >= 1 && (forall k int :: 0 <= k && k < len(result0) ==> segOK(result0[k]) && len(result0[k].Value) > 0)
 //@   ensures [C05] empty: str == "" ==> result1 != nil
+//@   ensures [C10,C17] adjacent-parameters-rejected: result1 == nil ==> (forall k int :: 0 < k && k < len(result0) ==>
+//@        !(hasSuffix(result0[k - 1].Value, "}") && result0[k].Value[0] == '{'))
 //@   ensures [C05,C03] immutable: segsKept()
 //@   inv 1 [C05,C03] immutable: segsKept()
 //@   inv 1 [C05] bound: -1 <= rangeindex && rangeindex < len(ss)
+//@   inv 1 [C10,C17] no-adjacent: (forall k int :: 0 < k && k <= rangeindex ==> !(hasSuffix(ss[k - 1], "}") && ss[k][0] == '{')) &&
+//@        (lastFlag <==> (rangeindex >= 0 && hasSuffix(ss[rangeindex], "}"))) && (forall k int :: 0 <= k && k < len(segs) ==> segs[k].Value == ss[k])
 //@   inv 1 [C05] segs: len(segs) == rangeindex + 1 && (forall k int :: 0 <= k && k < len(segs) ==> segOK(segs[k]) && allocated(segs[k]) && len(segs[k].Value) > 0)
 //@   inv 1 [C05] names: names != nil && (forall x string :: names[x] == 0 || names[x] == 1)
 //
